@@ -58,6 +58,20 @@ def _worker(args: tuple[str, dict[str, Any], int]) -> Collector | str:
         return "HARNESS-ERROR in shard %r:\n%s" % (spec, traceback.format_exc())
 
 
+def _replay_worker(args: tuple[str, Any]) -> list[tuple[str, str]] | str:
+    """Replays run in a pool worker, never in the main process: some checks start threads (log handlers, zstd), and the main
+    process must stay thread-free because it forks the shard workers afterwards."""
+    modname, witness = args
+    try:
+        import gallia.command  # noqa: F401
+
+        _quiet()
+        mod = importlib.import_module(modname)
+        return list(mod.replay(witness))
+    except BaseException:  # noqa: BLE001
+        return "HARNESS-ERROR in replay:\n" + traceback.format_exc()
+
+
 def load_known(prop: str) -> list[dict[str, Any]]:
     f = ROOT / "known_findings.json"
     if not f.exists():
@@ -115,12 +129,21 @@ def main(argv: list[str]) -> int:
     regress_n = 0
 
     # ---------------------------------------------------------------- known findings / fixed
-    for e in load_known(prop):
-        try:
-            res = mod.replay(e["witness"])
-        except Exception:  # noqa: BLE001
-            log(f"harness error while replaying known finding {e.get('bucket')}:\n{traceback.format_exc()}")
+    known = load_known(prop)
+    rdir = ROOT / "regress" / prop
+    rfiles = sorted(rdir.glob("*.json")) if rdir.is_dir() else []
+    rwit = [json.loads(f.read_text()) for f in rfiles]
+    ctx = mp.get_context("fork")
+    replay_jobs = [(modname, e["witness"]) for e in known] + [(modname, w["witness"]) for w in rwit]
+    replay_res: list[Any] = []
+    if replay_jobs:
+        with ctx.Pool(min(8, len(replay_jobs)), maxtasksperchild=4) as pool:
+            replay_res = pool.map(_replay_worker, replay_jobs, chunksize=1)
+    for r in replay_res:
+        if isinstance(r, str):
+            log(r)
             return 2
+    for e, res in zip(known, replay_res[: len(known)]):
         regress_n += 1
         buckets = {b for b, _ in res}
         if e.get("status") == "known":
@@ -138,20 +161,12 @@ def main(argv: list[str]) -> int:
                 violations_out.append(v)
 
     # ---------------------------------------------------------------- committed regression witnesses
-    rdir = ROOT / "regress" / prop
-    if rdir.is_dir():
-        for f in sorted(rdir.glob("*.json")):
-            w = json.loads(f.read_text())
-            try:
-                res = mod.replay(w["witness"])
-            except Exception:  # noqa: BLE001
-                log(f"harness error while replaying {f}:\n{traceback.format_exc()}")
-                return 2
-            regress_n += 1
-            for b, m in res:
-                if b not in suppressed:
-                    violations_out.append({"bucket": b, "witness": w["witness"],
-                                           "message": f"regression witness {f.name}: {m}"})
+    for f, w, res in zip(rfiles, rwit, replay_res[len(known):]):
+        regress_n += 1
+        for b, m in res:
+            if b not in suppressed:
+                violations_out.append({"bucket": b, "witness": w["witness"],
+                                       "message": f"regression witness {f.name}: {m}"})
 
     # ---------------------------------------------------------------- main search
     specs = mod.shards(tier)
@@ -159,12 +174,8 @@ def main(argv: list[str]) -> int:
     total = Collector()
     jobs = [(modname, dict(spec, tier=tier, shard=i, nshards=len(specs)), shard_seed(seed, i))
             for i, spec in enumerate(specs)]
-    if nproc == 1:
-        results = [_worker(j) for j in jobs]
-    else:
-        ctx = mp.get_context("fork")
-        with ctx.Pool(nproc, maxtasksperchild=1) as pool:
-            results = pool.map(_worker, jobs, chunksize=1)
+    with ctx.Pool(nproc, maxtasksperchild=1) as pool:
+        results = pool.map(_worker, jobs, chunksize=1)
     for r in results:
         if isinstance(r, str):
             log(r)
